@@ -115,11 +115,11 @@ fn decode(u: &mut Unstructured) -> arbitrary::Result<(&'static str, Vec<u8>, u8,
 }
 
 fuzz_target!(init: init(), |data: &[u8]| {
-    let mut u = Unstructured::new(data);
-    // the synthesiser and mutators are harness code: a panic in there is reported as harness:…
-    let Ok((format, bytes, hint_sel, ops)) = decode(&mut u) else { return };
-    let hint = if hint_sel < 224 { format } else { fz::format_for(hint_sel) };
     fz::guard(|| {
+        let mut u = Unstructured::new(data);
+        // the synthesiser and mutators are harness code: a panic in there is reported as harness:…
+        let Ok((format, bytes, hint_sel, ops)) = decode(&mut u) else { return };
+        let hint = if hint_sel < 224 { format } else { fz::format_for(hint_sel) };
         if ops & 3 != 3 {
             let ctx = fz::ctx();
             if let Ok(r) = c2pa::Reader::from_context(ctx).with_stream(hint, Cursor::new(&bytes)) {
